@@ -1,6 +1,7 @@
 (* C11 — the tower stays live (sequential half): the structural invariant holds in every reachable
    state, and under it the unwrap sites of the API handlers are unreachable.  Statements only. *)
-From TeosModel Require Import Base TxIndex Tower TowerStable TowerInv TowerProofs TowerSubs Conc LockOrder.
+From TeosModel Require Import Base TxIndex Tower TowerStable TowerInv TowerProofs TowerSubs TowerReorg TowerLive Conc LockOrder.
+From TeosModel Require TowerLedger.
 Local Open Scope N_scope.
 
 (* Every state reached from the bootstrap by any history of requests, blocks and node answers in
@@ -24,6 +25,169 @@ Proof. exact (register_never_aborts_in_envelope le t sc u). Qed.
 Theorem C11_reads_never_abort le t sc signer :
   (forall loc, not_abort (snd (step le t (OGet signer loc) sc))) /\ not_abort (snd (step le t (OGetSub signer) sc)).
 Proof. exact (reads_never_abort le t sc signer). Qed.
+
+(* ---------------------------------------------------------------------------------------------
+   no_abort_seq (TowerLive.v).  BigInv = Inv + chain_inv (TowerReorg) + index shape (IdxInv) + every
+   subscription can be given its grace period in u32 (ExpInv) + available + held slots <= 2^32-1 (SlotInv).
+   The ENVELOPE of one operation in one state (env_step, computable form envb):
+     ORegister u, u unknown : height + duration + grace <= 2^32-1 and the configured slots fit a u32
+     ORegister u, u known, renewal granted (available + slots <= 2^32-1):
+                              min(2^32-1, expiry + duration) + grace <= 2^32-1 and
+                              available + held + slots <= 2^32-1
+     OConnect               : CONFIRMATIONS_BEFORE_RETRY <= height + 1
+     OAdd / OGet / OGetSub / ODisconnect : unconstrained.
+   CHAIN DISCIPLINE (chain_step / chainb): a connected block's hash is not held by the responder's index
+   (ODisconnect removes the current tip by construction).  Bootstrap: distinct block hashes, and the
+   window does not include the genesis block (|blocks| <= height).
+   `le` = log_enabled; the model ignores it since the repair of F17: all statements are for both values. *)
+
+Theorem C11_envelope_spec t o : envb t o = true <-> env_step t o.
+Proof. exact (envb_spec t o). Qed.
+
+Theorem C11_chain_discipline_spec t o : chainb t o = true <-> chain_step t o.
+Proof. exact (chainb_spec t o). Qed.
+
+(* what the envelope says, spelled out *)
+Theorem C11_envelope_unfolded t o :
+  env_step t o =
+  match o with
+  | ORegister u =>
+      match gk_get t u with
+      | None => gk_height t + c_duration (cfg t) + c_delta (cfg t) <= U32MAX /\ c_slots (cfg t) <= U32MAX
+      | Some ui =>
+          u_slots ui + c_slots (cfg t) <= U32MAX ->
+          N.min U32MAX (u_expiry ui + c_duration (cfg t)) + c_delta (cfg t) <= U32MAX /\
+          TowerLedger.bal t u + c_slots (cfg t) <= U32MAX
+      end
+  | OConnect _ _ => RETRY <= gk_height t + 1
+  | _ => True
+  end.
+Proof. reflexivity. Qed.
+
+(* One step: from a state satisfying the big invariant, inside the envelope, no handler aborts,
+   whatever the operation (register, add, get, get_subscription_info, block connected, block
+   disconnected), the node's answers and the logging flag ... *)
+Theorem C11_step_never_aborts le t o sc : BigInv t -> envb t o = true -> not_abort (snd (step le t o sc)).
+Proof. exact (step_never_aborts le t o sc). Qed.
+
+(* ... and the big invariant holds again afterwards. *)
+Theorem C11_big_inv_step le t o sc :
+  BigInv t -> envb t o = true -> chainb t o = true -> BigInv (fst (step le t o sc)).
+Proof. exact (step_big le t o sc). Qed.
+
+Theorem C11_big_inv_bootstrap c h0 boot t0 :
+  init c h0 boot = Some t0 -> NoDup (map fst boot) -> N.of_nat (length boot) <= h0 -> BigInv t0.
+Proof. exact (big_init c h0 boot t0). Qed.
+
+(* no_abort_seq: EVERY history of requests, block events and node answers from a bootstrapped tower,
+   inside the envelope and the chain discipline: no handler aborts. *)
+Theorem C11_no_abort_seq le c h0 blocks t0 h :
+  init c h0 blocks = Some t0 -> NoDup (map fst blocks) -> N.of_nat (length blocks) <= h0 ->
+  in_envelope le t0 h = true -> chain_disciplined le t0 h = true ->
+  Forall not_abort (snd (run le t0 h)).
+Proof. exact (no_abort_seq le c h0 blocks t0 h). Qed.
+
+(* ... and when the tower is bootstrapped at least 5 blocks above its window (teosd refuses to start below
+   height 100 with a window of 100 blocks) the OConnect clause of the envelope holds by itself: only
+   registrations are constrained (in_envelope_reg = in_envelope without the OConnect clause). *)
+Theorem C11_no_abort_seq_deep le c h0 blocks t0 h :
+  init c h0 blocks = Some t0 -> NoDup (map fst blocks) -> N.of_nat (length blocks) + 5 <= h0 ->
+  in_envelope_reg le t0 h = true -> chain_disciplined le t0 h = true ->
+  Forall not_abort (snd (run le t0 h)).
+Proof. exact (no_abort_seq_deep le c h0 blocks t0 h). Qed.
+
+Theorem C11_big_inv_reachable le c h0 blocks t0 h :
+  init c h0 blocks = Some t0 -> NoDup (map fst blocks) -> N.of_nat (length blocks) <= h0 ->
+  in_envelope le t0 h = true -> chain_disciplined le t0 h = true ->
+  BigInv (fst (run le t0 h)).
+Proof. exact (big_inv_reachable le c h0 blocks t0 h). Qed.
+
+(* no_poison.  Tower.v has no poisoned-lock flag: an abort ends `run` (the history is cut there and nothing
+   later is answered - C11_run_abort_is_last).  In that representation: every operation of an in-envelope
+   history is answered, by a non-abort output, and the tower still answers afterwards. *)
+Theorem C11_no_poison le c h0 blocks t0 h :
+  init c h0 blocks = Some t0 -> NoDup (map fst blocks) -> N.of_nat (length blocks) <= h0 ->
+  in_envelope le t0 h = true -> chain_disciplined le t0 h = true ->
+  length (snd (run le t0 h)) = length h /\ Forall not_abort (snd (run le t0 h)) /\
+  forall o sc, envb (fst (run le t0 h)) o = true -> not_abort (snd (step le (fst (run le t0 h)) o sc)).
+Proof. exact (no_poison le c h0 blocks t0 h). Qed.
+
+Theorem C11_run_no_abort_complete le h t :
+  Forall not_abort (snd (run le t h)) -> length (snd (run le t h)) = length h.
+Proof. exact (run_no_abort_complete le h t). Qed.
+
+Theorem C11_run_abort_is_last le h t s :
+  In (OAbort s) (snd (run le t h)) -> exists xs, snd (run le t h) = xs ++ [OAbort s] /\ Forall not_abort xs.
+Proof. exact (run_abort_is_last le h t s). Qed.
+
+Theorem C11_le_irrelevant h t : run true t h = run false t h.
+Proof. exact (run_le_irrelevant h t). Qed.
+
+(* Each hypothesis is needed: outside it a handler of the faithful model aborts (witness histories by
+   computation; hyps_of = (in_envelope, chain_disciplined) of the witness). *)
+Theorem C11_envelope_slots_needed :
+  aborts_with S_gk_refund_overflow slots_cfg 100 boot2 slots_hist /\
+  hyps_of slots_cfg 100 boot2 slots_hist = Some (false, true).
+Proof. exact envelope_slots_needed. Qed.
+
+Theorem C11_envelope_expiry_needed :
+  aborts_with S_gk_outdated_overflow expiry_cfg 100 boot2 expiry_hist /\
+  hyps_of expiry_cfg 100 boot2 expiry_hist = Some (false, true).
+Proof. exact envelope_expiry_needed. Qed.
+
+Theorem C11_envelope_new_user_needed :
+  aborts_with S_gk_new_user_expiry_overflow newuser_cfg 100 boot2 [(ORegister 1, [])] /\
+  hyps_of newuser_cfg 100 boot2 [(ORegister 1, [])] = Some (false, true).
+Proof. exact envelope_new_user_needed. Qed.
+
+Theorem C11_envelope_retry_needed :
+  aborts_with S_r_stale_underflow plain_cfg 2 boot2 [(OConnect 1001 [], [])] /\
+  hyps_of plain_cfg 2 boot2 [(OConnect 1001 [], [])] = Some (false, true).
+Proof. exact envelope_retry_needed. Qed.
+
+Theorem C11_boot_window_needed :
+  aborts_with S_gk_disconnect_underflow plain_cfg 1 boot2 [(ODisconnect, []); (ODisconnect, [])] /\
+  hyps_of plain_cfg 1 boot2 [(ODisconnect, []); (ODisconnect, [])] = Some (true, true).
+Proof. exact boot_window_needed. Qed.
+
+Theorem C11_chain_discipline_needed :
+  aborts_with S_w_cache_update plain_cfg 100 boot2 dup_hist /\
+  hyps_of plain_cfg 100 boot2 dup_hist = Some (true, false).
+Proof. exact chain_discipline_needed. Qed.
+
+(* Non-vacuity: a 117-operation history (two users on one locator, breach, rejected penalty, late
+   appointment with its trigger in the cache, reads, unauthenticated requests, a reorg, a completion with
+   refund) satisfies every hypothesis, so the theorem applies to it: nothing aborts, everything is answered,
+   and the final state (reachable, concrete) satisfies the big invariant and holds users, rows and trackers. *)
+Example C11_live_example :
+  exists t0, init plain_cfg 100 boot2 = Some t0 /\
+    in_envelope true t0 live_hist = true /\ chain_disciplined true t0 live_hist = true /\
+    Forall not_abort (snd (run true t0 live_hist)) /\ length (snd (run true t0 live_hist)) = 117%nat /\
+    BigInv (fst (run true t0 live_hist)) /\
+    length (gk_users (fst (run true t0 live_hist))) = 2%nat /\
+    length (db_apps (fst (run true t0 live_hist))) = 2%nat /\
+    length (db_trks (fst (run true t0 live_hist))) = 2%nat.
+Proof.
+  destruct (init plain_cfg 100 boot2) as [t0|] eqn:Ei; [|vm_compute in Ei; discriminate].
+  exists t0. split; [reflexivity|].
+  assert (Hl : N.of_nat (length boot2) <= 100) by (vm_compute; discriminate).
+  assert (He : in_envelope true t0 live_hist = true) by (vm_compute in Ei; inversion Ei; subst t0; vm_compute; reflexivity).
+  assert (Hc : chain_disciplined true t0 live_hist = true) by (vm_compute in Ei; inversion Ei; subst t0; vm_compute; reflexivity).
+  split; [exact He|]. split; [exact Hc|].
+  split; [exact (no_abort_seq true _ _ _ t0 live_hist Ei boot2_nodup Hl He Hc)|].
+  split; [vm_compute in Ei; inversion Ei; subst t0; vm_compute; reflexivity|].
+  split; [exact (big_inv_reachable true _ _ _ t0 live_hist Ei boot2_nodup Hl He Hc)|].
+  vm_compute in Ei; inversion Ei; subst t0; vm_compute; repeat split.
+Qed.
+
+(* a state reached inside the envelope answers the next request of any kind *)
+Example C11_live_example_next o sc :
+  exists t0, init plain_cfg 100 boot2 = Some t0 /\
+    (envb (fst (run true t0 live_hist)) o = true -> not_abort (snd (step true (fst (run true t0 live_hist)) o sc))).
+Proof.
+  destruct C11_live_example as [t0 [Ei [_ [_ [_ [_ [HB _]]]]]]]. exists t0. split; [exact Ei|].
+  exact (step_never_aborts true _ o sc HB).
+Qed.
 
 (* Concurrent half, mutexes: every (held -> requested) pair any kind of operation may produce (table
    LockOrder.op_edges, checked against what hook H3 observes the real code doing in every step of
@@ -50,3 +214,24 @@ Print Assumptions C11_invariant_reachable.
 Print Assumptions C11_invariant_step.
 Print Assumptions C11_register_never_aborts.
 Print Assumptions C11_reads_never_abort.
+Print Assumptions C11_envelope_spec.
+Print Assumptions C11_chain_discipline_spec.
+Print Assumptions C11_envelope_unfolded.
+Print Assumptions C11_step_never_aborts.
+Print Assumptions C11_big_inv_step.
+Print Assumptions C11_big_inv_bootstrap.
+Print Assumptions C11_no_abort_seq.
+Print Assumptions C11_no_abort_seq_deep.
+Print Assumptions C11_big_inv_reachable.
+Print Assumptions C11_no_poison.
+Print Assumptions C11_run_no_abort_complete.
+Print Assumptions C11_run_abort_is_last.
+Print Assumptions C11_le_irrelevant.
+Print Assumptions C11_envelope_slots_needed.
+Print Assumptions C11_envelope_expiry_needed.
+Print Assumptions C11_envelope_new_user_needed.
+Print Assumptions C11_envelope_retry_needed.
+Print Assumptions C11_boot_window_needed.
+Print Assumptions C11_chain_discipline_needed.
+Print Assumptions C11_live_example.
+Print Assumptions C11_live_example_next.
